@@ -1,3 +1,5 @@
 import SparseV.Props.C01
 #print axioms SparseV.C01.bcast_pair_spec
 #print axioms SparseV.C01.bcast_result_rule
+#print axioms SparseV.C01.elemwise2_get
+#print axioms SparseV.C01.elemwise2_nofill
